@@ -1,12 +1,12 @@
 (* C04 — honest issue-hold-present-verify flows always verify.
    Property theorems only; every proof is `exact <lemma>`. PARTIAL: see C04_statement. *)
 From Coq Require Import List String ZArith NArith Bool.
-From AV Require Import Model.VTypes Model.CL Model.VerifierLegacy Model.VCfg Model.Prover Model.PProps Proofs.C04Proofs Proofs.C04F10 Proofs.C04G6.
+From AV Require Import Model.VTypes Model.CL Model.VerifierLegacy Model.VCfg Model.Prover Model.PProps Proofs.C04Proofs Proofs.C04F10 Proofs.C04G6 Proofs.C06S1 Proofs.C06S4 Proofs.C06S5 Proofs.C04R1 Proofs.C04R2 Model.VProps.
 Import ListNotations.
 
 (* the full statement, for both formats (composition of the prover and verifier models over every
    honest case). NOT proved as a whole: the legacy format is proved end to end for the classes of
-   C04_legacy_plain and C04_legacy_rev below; restrictions, verifier-side override maps and the W3C format are decided per
+   C04_legacy_plain, C04_legacy_rev and C04_legacy_restricted below; verifier-side override maps and the W3C format are decided per
    case by the correspondence run on every check (their CL layer is C04_sub_proof_verifies_partial). *)
 Definition C04_statement : Prop := c04_statement.
 
@@ -50,6 +50,32 @@ Theorem C04_rev_nonvacuous :
             /\ existsb (fun sp => is_some (sp_nrp sp)) (p_proofs P) = true.
 Proof. exact c04_rev_nonvacuous. Qed.
 
+(* END TO END WITH RESTRICTIONS, legacy format: for EVERY case whose request, with its restrictions removed, lies in
+   the class rev_b, whatever presentation the prover model builds for the request WITH its restrictions is accepted,
+   provided every restriction is true (Boolean semantics; of the credential that signed the sub-proof the built
+   presentation binds the referent to: restr_true_legacy evaluated on what the prover model built), distinct
+   definitions have distinct ids and keys, identifiers name schema and definition consistently, attributes are
+   named and issuer_id / issuer_did tags are not mixed. Composition of C04_legacy_rev, the prover's independence
+   of restrictions (C04_prover_ignores_restrictions) and C06_legacy_complete. *)
+Theorem C04_prover_ignores_restrictions : forall pc R cx link ps self,
+  create_legacy pc (strip_req R) cx link ps self = create_legacy pc R cx link ps self.
+Proof. exact strip_create_legacy. Qed.
+Theorem C04_legacy_restricted : forall c P,
+  rev_b (strip_case c) = true ->
+  create_legacy pcfg_fixed (pc_req c) (pc_cx c) (pc_link c) (pc_sel c) (pc_self c) = ROk P ->
+  creddefs_distinct (pc_cx c) = true -> ids_bound (pc_cx c) P = true -> req_named (pc_req c) = true ->
+  mixed_legacy_tags (CLegacy (pc_req c) P (pc_cx c)) = false ->
+  restr_true_legacy (pc_req c) P (pc_cx c) = true ->
+  verify_legacy cfg_fixed (pc_req c) P (pc_cx c) = Accept.
+Proof. exact c04_legacy_restricted. Qed.
+(* inhabited by a case outside rev_b: restrictions with $and, $not, $in and a value tag *)
+Theorem C04_restricted_nonvacuous :
+  exists P, create_legacy pcfg_fixed (pc_req x_case) (pc_cx x_case) (pc_link x_case) (pc_sel x_case) (pc_self x_case) = ROk P /\
+    rev_b (strip_case x_case) = true /\ creddefs_distinct (pc_cx x_case) = true /\ ids_bound (pc_cx x_case) P = true /\ req_named (pc_req x_case) = true /\
+    mixed_legacy_tags (CLegacy (pc_req x_case) P (pc_cx x_case)) = false /\ restr_true_legacy (pc_req x_case) P (pc_cx x_case) = true /\
+    rev_b x_case = false.
+Proof. exact c04_restricted_nonvacuous. Qed.
+
 (* CL layer, for EVERY credential provenance, fed values, schema attribute set, revealed names,
    predicates, revocation part, link secret and position: a sub-proof the ideal prover builds from
    a correctly issued credential (unaltered, issued to this link secret, fed the signed values, for
@@ -88,6 +114,9 @@ Proof. exact c04_fixed_search_on_witness. Qed.
 Print Assumptions C04_legacy_plain.
 Print Assumptions C04_plain_nonvacuous.
 Print Assumptions C04_legacy_rev.
+Print Assumptions C04_prover_ignores_restrictions.
+Print Assumptions C04_legacy_restricted.
+Print Assumptions C04_restricted_nonvacuous.
 Print Assumptions C04_rev_nonvacuous.
 Print Assumptions C04_sub_proof_verifies_partial.
 Print Assumptions C04_unfixed_search_refuted.
